@@ -412,6 +412,11 @@ func getBodyStructure(rawHeader textproto.Header, r io.Reader, extended bool) im
 			}
 			bs.Children = append(bs.Children, getBodyStructure(part.Header, part, extended))
 		}
+		if len(bs.Children) == 0 {
+			// A multipart entity without any part can't be represented (the
+			// protocol requires at least one): advertise an empty text part
+			bs.Children = append(bs.Children, getBodyStructure(textproto.Header{}, strings.NewReader(""), extended))
+		}
 		if extended {
 			bs.Extended = &imap.BodyStructureMultiPartExt{
 				Params:      typeParams,
